@@ -126,7 +126,7 @@ def _cv_inputs(B, case):
     return {"values": sym_values(B, case)}
 
 
-contract(f"{FH}::_check_values", "C02,C20", cases=[c for c in VALUE_CASES if c not in ("PeriodIndex", "DatetimeIndex", "ndarray-float-integral", "bool")],
+contract(f"{FH}::_check_values", "C02,C20,C03", cases=[c for c in VALUE_CASES if c not in ("PeriodIndex", "DatetimeIndex", "ndarray-float-integral", "bool")],
          inputs=_cv_inputs, modular=False,
          raises=[("TypeError", lambda A: isinstance(A.values, (str, tuple)) or A.values is None or
                   (isinstance(A.values, Opaque)) or (isinstance(A.values, SArr) and A.values.kind == "tuple") or
@@ -184,7 +184,7 @@ def _init_post(A, r):
     return And(is_sorted_perm_of(A.self.attrs["_values"], src), A.self.attrs["_is_relative"] is A.is_relative)
 
 
-contract(f"{FH}::ForecastingHorizon.__init__", "C02,C20", cases=_init_cases(), inputs=_init_inputs, modular=False,
+contract(f"{FH}::ForecastingHorizon.__init__", "C02,C20,C03", cases=_init_cases(), inputs=_init_inputs, modular=False,
          raises=[("TypeError", _init_type_error),
                  ("ValueError", lambda A: Not(pairwise_distinct(A.values)) if isinstance(A.values, SArr) and A.values.kind != "tuple" else False)],
          ensures=[("stored-sorted", _init_post)],
